@@ -367,6 +367,21 @@ def check(ctx):
         ctx.ob("enter.no-count-on-failure", ent, i.ast, q is None,
                "a failing __enter__ leaves the count untouched" if q is None else
                "__enter__ can raise after having counted itself: the key is never released", node=i)
+    # the same for every other method that takes a reference (a new `open()` next to the context manager): the count moves only
+    # when the key is there -- an exception after the increment, with no decrement on the way out, leaves a reference nobody gives
+    # back, so the key survives the last close
+    for mname, mf in sorted(KF.methods.items()):
+        if mf is ent or mname == "__init__":
+            continue
+        gm = an.cfg(mf)
+        incs_m = counter_nodes(mf, ast.Add)
+        decs_m = set(counter_nodes(mf, ast.Sub))
+        for i_ in incs_m:
+            q_ = gm.path(i_, lambda n: n is gm.raise_exit, may_raise=lambda n: an.node_may_raise(mf, n), stop=lambda n: n in decs_m, from_successors=True)
+            ctx.ob("enter.no-count-on-failure", mf, i_.ast, q_ is None,
+                   "nothing after the increment can fail (or the reference is given back on the way out)" if q_ is None else
+                   "%s counts a reference and can then fail (%s) without giving it back: the count never returns to 0 and the key is retained "
+                   "after the outermost close" % (mf.qualname, " -> ".join("%s@%s" % (x.kind, x.lineno) for x in q_[:8])), node=i_)
     rets = returns_of(an, ent)
     okr = bool(rets) and all(isinstance(r.ast.value, ast.Name) and r.ast.value.id == ent.self_name for r in rets)
     ctx.ob("enter.returns-self", ent, "return self", okr, "nested contexts share the one KeyFile object" if okr else
@@ -608,6 +623,19 @@ def check(ctx):
                 ctx.ob("verbatim.provider-keeps-key", model.enclosing_function(x), x, False, "the provider's key is re-assigned after construction", node=x)
 
     # ---------------------------------------------------------------- C07.6 no other holder
+    # the key slot and the counter are per-object state: a class-level binding of either name (a shared default, a descriptor
+    # that keeps the state somewhere else) makes several KeyFile objects one session
+    for st_ in KF.node.body:
+        if isinstance(st_, (ast.Assign, ast.AnnAssign)) and getattr(st_, "value", None) is not None:
+            for t_ in (st_.targets if isinstance(st_, ast.Assign) else [st_.target]):
+                if isinstance(t_, ast.Name):
+                    mangled = "_%s%s" % (KF.name.lstrip("_"), t_.id) if t_.id.startswith("__") and not t_.id.endswith("__") else t_.id
+                    if mangled in (slot, counter) or t_.id in (slot, counter):
+                        okc_ = isinstance(st_.value, ast.Constant)
+                        ctx.ob("census.instance-state", KF, st_, okc_,
+                               "a constant class-level default of the per-object state" if okc_ else
+                               "%s is bound at class level to %s: the key / the reference count is no longer the state of one KeyFile object "
+                               "(objects for one path share or reset each other's session)" % (t_.id, ast.unparse(st_.value)[:40]), node=st_)
     allowed = {"filename", slot, counter}
     for f in methods:
         for x in ast.walk(f.node):
